@@ -4,7 +4,7 @@ prop("C04", pkg="c04",
           "32767 - declared in ascending, descending or shuffled order; field kinds bool, int8..int64, int, float64, float32, string, []byte, lists, maps, "
           "sets (map[K]struct{}), structs, *struct, *scalar, **bool, union structs, named corpus types incl. a recursive one; 22 % of the top-level types (and some nested "
           "ones) carry 1-2 chains of ANONYMOUS embedding 1..4 levels deep (30/20/30/20 %), each level by value or through a pointer, with 2-3 tagged sibling fields at the "
-          "deepest level and 1-2 fields at every intermediate level, whose values are distinct and non-zero (labels embed-depth=1..4; depth >= 3 in ~5 % of all types); "
+          "deepest level and 1-2 fields at every intermediate level, whose values are distinct and non-zero (labels embed-depth=1..4; depth >= 3 in ~4.4 % of all types); "
           "tags required / optional / enum), 2-5 value recipes for it (boundary-weighted integers, special float bit patterns, list lengths 0/1/14/15/16/>16/127+), "
           "and a protocol schedule. Every value is put through Marshal/Unmarshal and a fresh Encoder/Decoder for all three protocols, through one Encoder and one "
           "Decoder Reset before each value across the scheduled protocols, and through one Encoder/Decoder over a single stream. The two defects found "
